@@ -313,6 +313,31 @@ func (r *mkRun) checkReadsOn(t mkvs.KeyValueTree, op *mkOp) *mkFail {
 			return failf("get", "Get(%x) = %x (present=%v), model %x (present=%v)", []byte(k), got, got != nil, []byte(want), ok)
 		}
 	}
+	// Near misses of every stored key (one bit flipped, one byte appended, the last byte cut off): keys outside the model's
+	// universe that share most of their path with a stored key.  An ordered map answers "absent" unless the variant is stored.
+	for _, p := range op.View {
+		k := []byte(p[0])
+		var variants [][]byte
+		for bit := 0; bit < len(k)*8; bit++ {
+			v := append([]byte{}, k...)
+			v[bit/8] ^= 0x80 >> uint(bit%8)
+			variants = append(variants, v)
+		}
+		variants = append(variants, append(append([]byte{}, k...), 0x00), append(append([]byte{}, k...), 0xff))
+		if len(k) > 0 {
+			variants = append(variants, append([]byte{}, k[:len(k)-1]...))
+		}
+		for _, v := range variants {
+			want, ok := lookupView(op.View, v)
+			got, err := t.Get(r.ctx, v)
+			if err != nil {
+				return failf("error", "Get(%x): %v", v, err)
+			}
+			if ok != (got != nil) || (ok && !bytes.Equal(got, want)) {
+				return failf("get", "Get(%x) (near miss of the stored key %x) = %x (present=%v), model %x (present=%v)", v, k, got, got != nil, []byte(want), ok)
+			}
+		}
+	}
 	// Seek + Next from every seek position.
 	for _, itx := range op.Iters {
 		if itx.Items == nil && op.A == "" {
